@@ -10,6 +10,7 @@ import (
 	"fmt"
 	"os"
 	"os/exec"
+	"path/filepath"
 	"strconv"
 	"strings"
 )
@@ -21,6 +22,7 @@ type RFOp struct {
 	Input    int    `json:"input"` // index into ReplayFile.Inputs
 	Twice    bool   `json:"twice,omitempty"`
 	Scribble bool   `json:"scribble,omitempty"`
+	Fresh    bool   `json:"fresh_copy,omitempty"`
 	Shared   *int   `json:"shared,omitempty"`
 }
 
@@ -62,6 +64,38 @@ type SeededPrefix struct {
 	Corrupt int    `json:"corrupt"`
 	Churn   int    `json:"churn"`
 	Large   int    `json:"large"`
+	// serial mode: the worker's reference re-verification slice (w % verify of verify)
+	Worker int `json:"worker,omitempty"`
+	Verify int `json:"verify,omitempty"`
+}
+
+// refsViaChildren computes the whole reference table of the installed pool in fresh child
+// processes (8 forward slices).
+func refsViaChildren(dir string, args []string) (*refTable, error) {
+	var parts []string
+	errs := make(chan error, 8)
+	for i := 0; i < 8; i++ {
+		out := filepath.Join(dir, fmt.Sprintf("pref-%d.bin", i))
+		parts = append(parts, out)
+		go func(i int, out string) {
+			cmd := exec.Command(os.Args[0], append([]string{"-mode", "ref", "-w", strconv.Itoa(i), "-of", "8", "-out", out}, args...)...)
+			cmd.Stderr = os.Stderr
+			errs <- cmd.Run()
+		}(i, out)
+	}
+	for i := 0; i < 8; i++ {
+		if err := <-errs; err != nil {
+			return nil, err
+		}
+	}
+	t, conflicts, err := loadRefs(parts)
+	if err != nil {
+		return nil, err
+	}
+	if len(conflicts) > 0 {
+		return nil, fmt.Errorf("reference slices disagree")
+	}
+	return t, nil
 }
 
 const replayFormat = "memefish-verif-replay/1"
@@ -80,7 +114,7 @@ func opToRF(op OpPlan, inputs *[]string, inIdx map[uint32]int) RFOp {
 		*inputs = append(*inputs, pool.inputs[op.Key.Input].text)
 	}
 	o := RFOp{Entry: entryNames[op.Key.Entry], Variant: variantNames[op.Key.Variant], Path: pathOf(op.Key), Input: j,
-		Twice: op.Twice, Scribble: op.Scribble}
+		Twice: op.Twice, Scribble: op.Scribble, Fresh: op.Fresh}
 	if op.Shared >= 0 {
 		s := op.Shared
 		o.Shared = &s
@@ -153,7 +187,7 @@ func installReplayPool(rf *ReplayFile) ([]runCase, error) {
 			p.opIdx[k] = int32(len(p.ops))
 			p.ops = append(p.ops, k)
 		}
-		op := OpPlan{Key: k, Twice: o.Twice, Scribble: o.Scribble, Shared: -1}
+		op := OpPlan{Key: k, Twice: o.Twice, Scribble: o.Scribble, Fresh: o.Fresh, Shared: -1}
 		if o.Shared != nil {
 			op.Shared = *o.Shared
 		}
